@@ -38,6 +38,11 @@ func carrierSwap(ctx *common.Ctx, car *common.Oracle, distinct map[string]bool, 
 	}
 	wrapper := append([]any{t.in}, t.args...)
 	alts := common.Carriers(wrapper)
+	// beyond the double range every carrier saturates alike: ±Inf is also what the literals
+	// 1e1000 / -1e1000 denote (common.Carriers leaves non-finite floats alone)
+	if w, changed := infAsLiteral(alts[len(alts)-1]); changed {
+		alts = append(alts, w)
+	}
 	baseJSON := marshalS(wrapper)
 	distinct[n.name+"|"+base.text] = true
 	for _, alt := range alts[1:] {
@@ -62,20 +67,54 @@ func carrierSwap(ctx *common.Ctx, car *common.Oracle, distinct map[string]bool, 
 			continue
 		}
 		key := "carrier-swap:" + n.name
+		cmd := ""
 		// root cause probe: toIntCeil applies math.Ceil to float64 only, so a fractional json.Number
 		// used as the END of a slice is truncated instead. If carrying exactly those values as
 		// float64 removes the difference, the violation is keyed by that cause (one defect, many natives).
 		if fixed, changed := floatSliceEnds(n.name, w); changed {
 			if b := callNative(n.info.Callback, fixed[0], fixed[1:]); b.text == base.text {
 				key = "carrier-swap:slice-end-json.Number"
+				cmd = "echo 1.5 | gojq -c '. as $e | [1,2,3] | .[:$e]'   # [1]: the end arrives as json.Number and is truncated;   gojq -nc '[1,2,3] | .[:1.5]'   # [1,2]: a float64 end is rounded up (toIntCeil, func.go)"
 			}
 		}
 		ctx.Violate(key, fmt.Sprintf("%s depends on the Go carrier of a number: %s with carriers %s, but %s with carriers %s",
 			label(n.name, t), clipS(base.text, 200), carrierNames(wrapper), clipS(a.text, 200), carrierNames(w)),
 			map[string]any{"native": n.name, "input": common.Canon(t.in), "args": canonList(t.args), "carriers_a": carrierNames(wrapper), "observed_a": base.text,
-				"carriers_b": carrierNames(w), "observed_b": a.text, "values_b": fmt.Sprintf("%#v", w),
+				"carriers_b": carrierNames(w), "observed_b": a.text, "values_b": fmt.Sprintf("%#v", w), "cmd": cmd,
 				"note": "through the command line, numbers of the input document arrive as json.Number and numbers written in the query as int/float64"})
 	}
+}
+
+// infAsLiteral re-carries every float64 ±Inf as the json.Number ±1e1000.
+func infAsLiteral(v any) (any, bool) {
+	switch x := v.(type) {
+	case float64:
+		if math.IsInf(x, 1) {
+			return json.Number("1e1000"), true
+		}
+		if math.IsInf(x, -1) {
+			return json.Number("-1e1000"), true
+		}
+	case []any:
+		ch := false
+		ys := make([]any, len(x))
+		for i, y := range x {
+			var c bool
+			ys[i], c = infAsLiteral(y)
+			ch = ch || c
+		}
+		return ys, ch
+	case map[string]any:
+		ch := false
+		m := make(map[string]any, len(x))
+		for k, y := range x {
+			var c bool
+			m[k], c = infAsLiteral(y)
+			ch = ch || c
+		}
+		return m, ch
+	}
+	return v, false
 }
 
 // floatSliceEnds re-carries as float64 every json.Number that is the "end" member of an object
